@@ -270,6 +270,14 @@ class C04World:
             if es is not None and et is not None and type(es) is type(et):
                 if op == "copy":
                     raise _V(Violation("UNREADABLE", f"copy() raised {type(es).__name__}: {es} from state {pre}", key))
+                # The refusal itself is foreign (it belongs to another property), but a public operation that raises must
+                # not leave the sequence unreadable or its two views describing different music: the history goes on.
+                try:
+                    self.check_state(S, op, pre, f" (after {op} raised {type(es).__name__})")
+                except _V as v:
+                    v.v.cls = "EXC-" + v.v.cls
+                    v.v.key = dict(v.v.key, exc=type(es).__name__)
+                    raise
                 raise Foreign(f"{op}:{type(es).__name__}")
             who = "subject" if es is not None else "clean twin"
             raise _V(Violation("STATE-DEPENDENT",
